@@ -13,7 +13,19 @@
 //! Implementation-level oracle: full lookup = for every probe, the build rows with an equal hash, each
 //! once, in reverse insertion order; concatenated pages = full lookup restricted to valid probes;
 //! membership = "the lookup is non-empty"; no page is longer than `limit`; paging terminates.
+use std::sync::Arc;
+
+use arrow::array::{Array, ArrayRef, Int64Array, RecordBatch};
 use arrow::buffer::NullBuffer;
+use arrow::datatypes::{DataType, Field, Schema};
+use datafusion_common::{JoinType, NullEquality};
+use datafusion_datasource::memory::MemorySourceConfig;
+use datafusion_execution::TaskContext;
+use datafusion_execution::config::SessionConfig;
+use datafusion_physical_expr::PhysicalExpr;
+use datafusion_physical_expr::expressions::Column;
+use datafusion_physical_plan::joins::{HashJoinExec, PartitionMode};
+use datafusion_physical_plan::{ExecutionPlan, collect};
 use datafusion_physical_plan::joins::join_hash_map::{JoinHashMapType, JoinHashMapU32, JoinHashMapU64};
 use hutil::{Args, Rng, Run};
 
@@ -93,7 +105,12 @@ fn run_case(run: &mut Run, rng: &mut Rng, case_no: u64, exhaustive: Option<(Vec<
         let hs: Vec<u64> = (0..np)
             .map(|_| if n > 0 && rng.chance(3, 4) { hashes[rng.below(n as u64) as usize] } else { 900 + rng.below(3) })
             .collect();
-        let valid = if rng.chance(1, 2) { None } else { Some((0..np).map(|_| !rng.chance(1, 4)).collect()) };
+        let valid = match rng.below(8) {
+            0..=3 => None,
+            4 => Some(vec![true; np]),  // a mask that filters nothing (direct API users may pass one)
+            5 => Some(vec![false; np]), // every key NULL
+            _ => Some((0..np).map(|_| !rng.chance(1, 4)).collect()),
+        };
         let total: usize = hs.iter().map(|h| hashes.iter().filter(|x| *x == h).count()).sum();
         let limit = *rng.pick(&[1usize, 1, 2, 3, 5, total.max(1), total + 1, total.saturating_sub(1).max(1), 1000]);
         queries.push(Query { hashes: hs, valid, limit });
@@ -105,8 +122,8 @@ fn run_case(run: &mut Run, rng: &mut Rng, case_no: u64, exhaustive: Option<(Vec<
         let total: usize = probe.iter().map(|p| h.iter().filter(|x| *x == p).count()).sum();
         for limit in 1..=(total + 1) {
             queries.push(Query { hashes: probe.clone(), valid: None, limit });
+            queries.push(Query { hashes: probe.clone(), valid: Some(vec![limit % 2 == 0, false, true, true]), limit });
         }
-        queries.push(Query { hashes: probe.clone(), valid: Some(vec![true, false, true, true]), limit: 2 });
     }
     let mut kinds = std::collections::BTreeSet::new();
     if all_unique_fast {
@@ -138,7 +155,33 @@ fn run_case(run: &mut Run, rng: &mut Rng, case_no: u64, exhaustive: Option<(Vec<
             fails.push(("full-lookup".into(), format!("probes {:?}: got [{}], the equal-hash rows are [{}]", q.hashes, show_pairs(&full), show_pairs(&want))));
         }
         // paged
-        let nulls = q.valid.as_ref().map(|v| NullBuffer::from(v.clone()));
+        // In production the mask is the validity of a (possibly sliced) key column: a NullBuffer whose
+        // bits start at a non-zero offset inside a longer bitmap. The bits in front of the offset are
+        // the complement of the real ones, so reading the buffer without the offset gives wrong answers.
+        let nulls = q.valid.as_ref().map(|v| {
+            let off = match rng.below(6) {
+                0 => 0usize,
+                1 => 1 + rng.below(7) as usize,          // inside the first byte
+                2 => 8 * (1 + rng.below(3) as usize),     // byte aligned
+                3 => 63 + rng.below(3) as usize,          // around the u64 word boundary
+                _ => 1 + rng.below(130) as usize,
+            };
+            if off == 0 {
+                kinds.insert("mask-offset-0");
+                NullBuffer::from(v.clone())
+            } else {
+                kinds.insert("mask-sliced(offset>0)");
+                if all_unique_fast {
+                    kinds.insert("fast-path+sliced-mask");
+                }
+                let mut long: Vec<bool> = (0..off).map(|i| if v.is_empty() { i % 2 == 0 } else { !v[i % v.len()] }).collect();
+                long.extend(v.iter().cloned());
+                long.extend((0..rng.below(9)).map(|i| i % 2 == 0));
+                let sliced = NullBuffer::from(long).slice(off, v.len());
+                assert_eq!(sliced.len(), v.len());
+                sliced
+            }
+        });
         let mut offset: (usize, Option<u64>) = (0, None);
         let mut pages: Vec<Pairs> = vec![];
         let (mut ib, mut mb) = (vec![7u32; 2], vec![7u64; 2]);
@@ -220,6 +263,131 @@ fn run_case(run: &mut Run, rng: &mut Rng, case_no: u64, exhaustive: Option<(Vec<
     }
 }
 
+// ------------------------------------------------------------------------------------------
+/// End to end: `HashJoinExec` (hash-map path forced) whose probe side arrives as SLICES of larger
+/// batches (`RecordBatch::slice`), so the key column's validity bitmap — and hence the `valid_keys`
+/// mask handed to the join hash map — starts at a non-zero bit offset; NULL keys on both sides; batch
+/// sizes that force the lookup to be paged. Oracle: the nested-loop definition of the join type
+/// (NULL keys match nothing), as a bag of (left id, right id).
+fn e2e(run: &mut Run, rng: &mut Rng) {
+    let n = run.budget(400, 12_000);
+    let rt = tokio::runtime::Builder::new_current_thread().enable_all().build().unwrap();
+    let schema = Arc::new(Schema::new(vec![Field::new("k", DataType::Int64, true), Field::new("id", DataType::Int64, false)]));
+    let jts = [JoinType::Inner, JoinType::Left, JoinType::Right, JoinType::Full, JoinType::LeftSemi, JoinType::LeftAnti, JoinType::RightSemi, JoinType::RightAnti];
+    let mk = |rows: &[(Option<i64>, i64)]| -> RecordBatch {
+        let k: Int64Array = rows.iter().map(|r| r.0.map(|x| x * 1_000_003)).collect();
+        let id: Int64Array = rows.iter().map(|r| Some(r.1)).collect();
+        RecordBatch::try_new(schema.clone(), vec![Arc::new(k) as ArrayRef, Arc::new(id) as ArrayRef]).unwrap()
+    };
+    for case in 0..n {
+        let dom = *rng.pick(&[1i64, 2, 3]);
+        let key = |rng: &mut Rng| if rng.chance(1, 4) { None } else { Some(1 + rng.below(dom as u64) as i64) };
+        let nl = *rng.pick(&[0usize, 1, 2, 3, 5, 8]);
+        let nr = *rng.pick(&[0usize, 1, 2, 3, 5, 9, 14]);
+        let left: Vec<(Option<i64>, i64)> = (0..nl).map(|i| (key(rng), i as i64)).collect();
+        let right: Vec<(Option<i64>, i64)> = (0..nr).map(|i| (key(rng), 100 + i as i64)).collect();
+        // probe batches: consecutive chunks, each cut out of a longer batch at a non-zero offset
+        let mut rbatches: Vec<RecordBatch> = vec![];
+        let mut offs: Vec<usize> = vec![];
+        let mut at = 0;
+        while at < nr || rbatches.is_empty() {
+            let len = if nr == 0 { 0 } else { (1 + rng.below(6) as usize).min(nr - at) };
+            let off = *rng.pick(&[0usize, 1, 3, 7, 8, 9, 64, 65]);
+            let chunk = &right[at..at + len];
+            // junk rows in front: NULL exactly where the real row at the same position is not
+            let mut padded: Vec<(Option<i64>, i64)> = (0..off).map(|i| (if chunk.is_empty() || chunk[i % chunk.len()].0.is_some() { None } else { Some(1) }, -7)).collect();
+            padded.extend_from_slice(chunk);
+            padded.push((Some(2), -8));
+            rbatches.push(mk(&padded).slice(off, len));
+            offs.push(off);
+            at += len;
+            if nr == 0 {
+                break;
+            }
+        }
+        // build side: one or two batches, also sliced
+        let lb = {
+            let off = *rng.pick(&[0usize, 2, 9]);
+            let mut padded: Vec<(Option<i64>, i64)> = (0..off).map(|_| (Some(1), -9)).collect();
+            padded.extend_from_slice(&left);
+            mk(&padded).slice(off, nl)
+        };
+        let jt = *rng.pick(&jts);
+        let bsz = *rng.pick(&[1usize, 2, 3, 5, 8192]);
+        let on: Vec<(Arc<dyn PhysicalExpr>, Arc<dyn PhysicalExpr>)> = vec![(Arc::new(Column::new("k", 0)), Arc::new(Column::new("k", 0)))];
+        let lexec = MemorySourceConfig::try_new_exec(&[vec![lb]], schema.clone(), None).unwrap();
+        let rexec = MemorySourceConfig::try_new_exec(&[rbatches], schema.clone(), None).unwrap();
+        let plan = HashJoinExec::try_new(lexec, rexec, on, None, &jt, None, PartitionMode::CollectLeft, NullEquality::NullEqualsNothing, false).unwrap();
+        let mut cfg = SessionConfig::new().with_batch_size(bsz);
+        cfg.options_mut().execution.perfect_hash_join_small_build_threshold = 0;
+        cfg.options_mut().execution.perfect_hash_join_min_key_density = 1.0e18;
+        let ctx = Arc::new(TaskContext::default().with_session_config(cfg));
+        let plan: Arc<dyn ExecutionPlan> = Arc::new(plan);
+        let res = hutil::catch(std::panic::AssertUnwindSafe(|| rt.block_on(async { tokio::time::timeout(std::time::Duration::from_secs(20), collect(plan, ctx)).await })));
+        // ---- the definition
+        let m = |l: &(Option<i64>, i64), r: &(Option<i64>, i64)| l.0.is_some() && l.0 == r.0;
+        let mut want: Vec<(i64, i64)> = vec![];
+        match jt {
+            JoinType::Inner | JoinType::Left | JoinType::Right | JoinType::Full => {
+                for l in &left {
+                    for r in &right {
+                        if m(l, r) {
+                            want.push((l.1, r.1));
+                        }
+                    }
+                }
+                if matches!(jt, JoinType::Left | JoinType::Full) {
+                    want.extend(left.iter().filter(|l| !right.iter().any(|r| m(l, r))).map(|l| (l.1, -1)));
+                }
+                if matches!(jt, JoinType::Right | JoinType::Full) {
+                    want.extend(right.iter().filter(|r| !left.iter().any(|l| m(l, r))).map(|r| (-1, r.1)));
+                }
+            }
+            JoinType::LeftSemi => want.extend(left.iter().filter(|l| right.iter().any(|r| m(l, r))).map(|l| (l.1, -1))),
+            JoinType::LeftAnti => want.extend(left.iter().filter(|l| !right.iter().any(|r| m(l, r))).map(|l| (l.1, -1))),
+            JoinType::RightSemi => want.extend(right.iter().filter(|r| left.iter().any(|l| m(l, r))).map(|r| (-1, r.1))),
+            _ => want.extend(right.iter().filter(|r| !left.iter().any(|l| m(l, r))).map(|r| (-1, r.1))),
+        }
+        want.sort();
+        let got: Result<Vec<(i64, i64)>, String> = match res {
+            Err(p) => Err(format!("panic: {p}")),
+            Ok(Err(_)) => Err("hang (20 s)".into()),
+            Ok(Ok(Err(e))) => Err(format!("error: {e}")),
+            Ok(Ok(Ok(batches))) => {
+                let mut v = vec![];
+                for b in &batches {
+                    let id_of = |c: usize, i: usize| {
+                        let a = b.column(c).as_any().downcast_ref::<Int64Array>().unwrap();
+                        if a.is_null(i) { -1 } else { a.value(i) }
+                    };
+                    for i in 0..b.num_rows() {
+                        v.push(match jt {
+                            JoinType::Inner | JoinType::Left | JoinType::Right | JoinType::Full => (id_of(1, i), id_of(3, i)),
+                            JoinType::LeftSemi | JoinType::LeftAnti => (id_of(1, i), -1),
+                            _ => (-1, id_of(1, i)),
+                        });
+                    }
+                }
+                v.sort();
+                Ok(v)
+            }
+        };
+        run.count(&format!("e2e:{jt:?}"));
+        if offs.iter().any(|o| *o > 0) {
+            run.count("e2e:sliced-probe-batch");
+        }
+        if right.iter().any(|r| r.0.is_none()) {
+            run.count("e2e:null-probe-keys");
+        }
+        let ok = got.as_ref().map(|g| g == &want).unwrap_or(false);
+        run.oracle(
+            ok,
+            &format!("hashjoin-e2e case#{case} {jt:?} batch_size={bsz} left={left:?} right={right:?} probe-slice-offsets={offs:?}"),
+            &format!("HashJoinExec returned {got:?}, the definition gives {want:?}"),
+        );
+    }
+}
+
 pub fn run(run: &mut Run, args: &Args) {
     hutil::quiet_panics();
     let mut rng = Rng::new(args.seed);
@@ -241,4 +409,5 @@ pub fn run(run: &mut Run, args: &Args) {
             }
         }
     }
+    e2e(run, &mut rng);
 }
